@@ -36,6 +36,11 @@ pub fn replay(path: &str) -> i32 {
                         evs.join(" ")
                     );
                 }
+                let call_rounds: std::collections::HashSet<i32> = n.calls.iter().map(|c| c.round).collect();
+                let loose: Vec<String> = n.events.iter().filter(|e| !call_rounds.contains(&e.0)).map(|e| format!("{}:{:?}", e.0, e.2)).collect();
+                if !loose.is_empty() {
+                    println!("  events drained outside the calls above ({}): {}", loose.len(), loose.join(" "));
+                }
                 for a in &n.actions {
                     println!("  action round {} {:?} -> res {} {} conn_after={:?} delivered={:?}", a.round, a.action, a.res, a.detail, a.conn_after, a.delivered_at_call);
                 }
